@@ -3,8 +3,6 @@ From CppcmsV Require Import Base.Tac C03.Defs C03.Proofs C03.Proofs2 C03.Proofs3
 Local Open Scope N_scope.
 
 Definition script_body (ops : list op) : bytes := concat (map obytes ops).
-Definition script_safe (async : bool) (base : headers) (defbuf : N) (version : bytes) (c : conn) (ops : list op) : Prop :=
-  ops_safe (new_resp async base defbuf version) c ops.
 Definition fresh (c : conn) : Prop := k_err c = false /\ k_trace c = [] /\ k_wire c = [] /\ k_pending c = [].
 
 Lemma run_request_whole async base defbuf version c ops :
@@ -17,11 +15,11 @@ Qed.
 Lemma pre_new async base defbuf version : PreI async (new_resp async base defbuf version).
 Proof. constructor; reflexivity. Qed.
 
-(* response_exact: for every script without a shrinking setbuf on a fully buffered device, every protocol, every
+(* response_exact: for EVERY script (setbuf of any size at any point included), every protocol, every
    accept schedule: unless an error was signalled, the wire is the ideal stream of a trace t ++ [(g, eof)] whose data is
    exactly what the script wrote, nothing is pending, and the page-cache copy (if installed) equals the body *)
 Lemma response_exact_lemma async base defbuf version c ops :
-  fresh c -> script_safe async base defbuf version c ops ->
+  fresh c ->
   let f0 := set_response_headers (k_fmt c) (hdrs_at_out base ops) version in
   let res := run_request async base defbuf version c ops in
   k_err (fst res) = false ->
@@ -30,9 +28,9 @@ Lemma response_exact_lemma async base defbuf version c ops :
   k_pending (fst res) = [] /\
   (r_copy_on (fst (whole (new_resp async base defbuf version) c ops)) = true -> snd res = script_body ops).
 Proof.
-  intros (He & Ht & Hw & Hp) Hsafe f0 res Hok. unfold res in *. rewrite run_request_whole in *. cbn [fst snd] in *.
+  intros (He & Ht & Hw & Hp) f0 res Hok. unfold res in *. rewrite run_request_whole in *. cbn [fst snd] in *.
   assert (Hs : sent c = []) by (unfold sent, wire_bytes; now rewrite Hw, Hp).
-  pose proof (whole_done async ops (new_resp async base defbuf version) c (pre_new _ _ _ _) He Ht Hs Hsafe) as H.
+  pose proof (whole_done async ops (new_resp async base defbuf version) c (pre_new _ _ _ _) He Ht Hs) as H.
   cbv zeta in H. cbn [new_resp r_hdrs r_version] in H. destruct H as [HD HC].
   split; [exact (done_wire _ _ _ HD Hok)|]. split; [exact (dn_pending _ _ _ HD Hok)|exact HC].
 Qed.
@@ -44,13 +42,13 @@ Lemma srh_fields f h v : f_proto (set_response_headers f h v) = f_proto f /\ f_h
 Proof. unfold set_response_headers. destruct (f_proto f) eqn:E; cbn; rewrite ?E; repeat split. Qed.
 
 Lemma scgi_exact async base defbuf version c ops :
-  fresh c -> f_proto (k_fmt c) = Scgi -> script_safe async base defbuf version c ops ->
+  fresh c -> f_proto (k_fmt c) = Scgi ->
   let cf := fst (run_request async base defbuf version c ops) in
   k_err cf = false ->
   wire_bytes cf = format_cgi_headers (hdrs_at_out base ops) ++ script_body ops.
 Proof.
-  intros Hf Hp Hsafe cf Hok.
-  destruct (response_exact_lemma async base defbuf version c ops Hf Hsafe Hok) as ((t & g & Haf & Hb & Hw) & _ & _).
+  intros Hf Hp cf Hok.
+  destruct (response_exact_lemma async base defbuf version c ops Hf Hok) as ((t & g & Haf & Hb & Hw) & _ & _).
   fold cf in Hw. rewrite Hw. set (f0 := set_response_headers _ _ _).
   destruct (srh_fields (k_fmt c) (hdrs_at_out base ops) version) as (P & D & _). fold f0 in P, D.
   assert (Hh : f_hdr f0 = format_cgi_headers (hdrs_at_out base ops)) by (unfold f0, set_response_headers; rewrite Hp; reflexivity).
@@ -63,15 +61,15 @@ Proof.
 Qed.
 
 Lemma fcgi_exact async base defbuf version c ops rest :
-  fresh c -> f_proto (k_fmt c) = Fcgi -> script_safe async base defbuf version c ops ->
+  fresh c -> f_proto (k_fmt c) = Fcgi ->
   let cf := fst (run_request async base defbuf version c ops) in
   k_err cf = false ->
   exists fuel0, forall fuel, (fuel0 <= fuel)%nat ->
   unrecord fuel (f_reqid (k_fmt c)) (wire_bytes cf ++ rest) =
   Some (format_cgi_headers (hdrs_at_out base ops) ++ script_body ops, rest).
 Proof.
-  intros Hf Hp Hsafe cf Hok.
-  destruct (response_exact_lemma async base defbuf version c ops Hf Hsafe Hok) as ((t & g & Haf & Hb & Hw) & _ & _).
+  intros Hf Hp cf Hok.
+  destruct (response_exact_lemma async base defbuf version c ops Hf Hok) as ((t & g & Haf & Hb & Hw) & _ & _).
   fold cf in Hw. rewrite Hw. set (f0 := set_response_headers _ _ _).
   destruct (srh_fields (k_fmt c) (hdrs_at_out base ops) version) as (P & D & R & _). fold f0 in P, D, R.
   assert (Hh : f_hdr f0 = format_cgi_headers (hdrs_at_out base ops)) by (unfold f0, set_response_headers; rewrite Hp; reflexivity).
@@ -99,13 +97,12 @@ Inductive http_wire (hdr server body wire : bytes) : Prop :=
 
 Lemma http_exact async base defbuf version c ops :
   fresh c -> f_proto (k_fmt c) = Http -> hmap_get (h_map (hdrs_at_out base ops)) CONTENT_LENGTH = [] ->
-  script_safe async base defbuf version c ops ->
   let cf := fst (run_request async base defbuf version c ops) in
   k_err cf = false ->
   http_wire (format_http_headers (hdrs_at_out base ops) version) (f_server (k_fmt c)) (script_body ops) (wire_bytes cf).
 Proof.
-  intros Hf Hp Hcl Hsafe cf Hok.
-  destruct (response_exact_lemma async base defbuf version c ops Hf Hsafe Hok) as ((t & g & Haf & Hb & Hw) & _ & _).
+  intros Hf Hp Hcl cf Hok.
+  destruct (response_exact_lemma async base defbuf version c ops Hf Hok) as ((t & g & Haf & Hb & Hw) & _ & _).
   fold cf in Hw. set (f0 := set_response_headers _ _ _) in Hw.
   destruct (srh_fields (k_fmt c) (hdrs_at_out base ops) version) as (P & D & R & K & V & S). fold f0 in P, D, R, K, V, S.
   assert (Hh : f_hdr f0 = format_http_headers (hdrs_at_out base ops) version /\ f_ocl f0 = None).
